@@ -4,7 +4,7 @@ import random
 
 from .. import core, flow, corr_loop, oracles_sde as osde
 
-PROOFS = ['Tsv.Proofs.LoopCore', 'Tsv.Proofs.C12']
+PROOFS = ['Tsv.Proofs.LoopCore', 'Tsv.Proofs.C12', 'Tsv.Proofs.C12Term']
 TRUSTED = ["Lean 4.33 kernel + Mathlib", "hand-written loop model Model/Loop.lean, tied to the real BaseSDESolver.integrate by "
            "the per-run correspondence (outputs, step sequence: bit for bit)", "tracer/emitter for linear_interp",
            "dtype/shape facts (torch.tensor(ts, dtype=y0.dtype), stack) are PyTorch semantics: checked on the real code only",
